@@ -9,6 +9,7 @@ import katdal
 import katpoint
 from fixtures import v4
 from katdal.spectral_window import SpectralWindow
+from props import c17_ext as ext
 
 RULE = ('(a) v4 data sets with dyadic timing attributes: capture start (incl. time_offset) exactly on, one second / a '
         'quarter second / an hour / whole days either side of each documented fix date or far from it, both CBF '
@@ -22,10 +23,24 @@ RULE = ('(a) v4 data sets with dyadic timing attributes: capture start (incl. ti
         'channel counts): timestamps, freqs, channel_width, vis, flags, weights, a numeric sensor, start/end, later '
         'relative selections; freqs of both also against centre + (k - N//2) * bandwidth / N of the telstate attributes; '
         '(d) preselect validation with and without a chunk store: fixed forms, every select keyword and near misses alone '
-        'and next to a valid key, reversed ranges, random key/step forms; (e) katpoint reads the fix dates as UTC midnight. '
+        'and next to a valid key, reversed ranges, random key/step forms, each through the open paths direct / metadata-only / '
+        'katdal.open(file) / katdal.open([file]) / explicit timestamps / another format (accept or WHICH error vs model and rule); '
+        '(e) katpoint reads the fix dates as UTC midnight; (g) slice.indices model on the full grid n <= 6, bounds -n-2..n+2 / None; '
+        '(h) the whole open on stores whose n_chans attribute may differ from the stored channel count (channel-count '
+        'fallback), valid / empty / un-normalised ranges: verdict, dumps, timestamps, window, chunk-store index, shape; '
+        '(i) whole vs preselected data set on stores drawn as in C06 (independent chunkings, deleted chunk files, flags from a '
+        'flag stream longer / shorter than L0): timestamps, freqs, vis, weights, raw and boolean flags vs select(), vs the cut of '
+        'the whole arrays and vs the chunk-store model; (j) explicit (irregular) timestamps handed to the data source; '
+        '(l) RDBs with a complete, absent or partially stripped CBF attribute chain (each link missing / empty in turn), mostly '
+        'before a fix date: cbf_dump_period and timestamps; '
+        '(k) SpectralWindow constructor variants (positional / keyword / mixed, defaults), product / band / sideband through '
+        'random histories of sub-ranges and re-channelisations, laws on exact numbers, names of the v4 window. '
         'A case is non-trivial when it has >= 2 dumps/channels; distinct by its full parameter tuple.')
 ASSUMPTIONS = ['float64 arithmetic is exact on the generated (dyadic) values, so comparisons are equalities',
-               'Python slice normalisation of preselect ranges (slice.indices) is taken from Python, not modelled']
+               'slice.indices / numpy / dask slicing with unit step is Python\'s: modelled by py_indices (hand-written) and '
+               'compared with Python on a complete grid of small values',
+               'a data set without any dump or channel cannot be constructed: empty preselections are rejections',
+               'histories of window operations are compared as long as every intermediate value is dyadic']
 
 FIX_DATES = [1549843200, 1551571200, 1552608000]
 DAY = 86400
@@ -302,6 +317,10 @@ def check_spw(ctx, centre, bw, n, side, via_width=False):
             got = [exact(v) for v in s.channel_freqs]
         except IndexError:
             s = got = None
+        except Exception as e:
+            ctx.disagree('what=subrange;symptom=exception:%s' % type(e).__name__, dict(case, first=f, last=l), repr(e)[:200],
+                         None, 'subrange(first,last) raised something else than IndexError')
+            continue
         valid = (0 <= f < l <= n)
         want = want0[f:l] if valid else None
         if got != want or (s is not None and (exact(s.channel_width) != cw0 or s.num_chans != l - f
@@ -544,7 +563,11 @@ FORMS = [dict(dumps=slice(0, 2)), dict(channels=slice(1, 3)), dict(dumps=slice(0
          dict(dumps=slice(0, 2), channels=slice(0, 2), flags='cam'), dict(channels=np.arange(2)), {},
          # reversed ranges (a negative step that would actually select something)
          dict(dumps=slice(None, None, -1)), dict(dumps=slice(3, 0, -1)), dict(channels=slice(3, 1, -1)),
-         dict(dumps=slice(3, None, -1), channels=slice(0, 2)), dict(dumps=slice(0, 4, 3)), dict(channels=slice(0, 4, 3))]
+         dict(dumps=slice(3, None, -1), channels=slice(0, 2)), dict(dumps=slice(0, 4, 3)), dict(channels=slice(0, 4, 3)),
+         # a valid first item followed by an invalid one that would still select something
+         dict(channels=slice(0, 3), dumps=slice(0, 4, 2)), dict(channels=slice(1, 3), dumps=slice(None, None, -1)),
+         dict(dumps=slice(0, 4), channels=slice(0, 4, 2)), dict(dumps=slice(1, None), channels=slice(None, None, -1)),
+         dict(dumps=slice(0, 3), channels=2), dict(channels=slice(0, 3), dumps=[0, 1])]
 # every keyword DataSet.select understands, plus near misses: alone and next to a valid key, with a VALID slice value
 KEY_POOL = ['dumps', 'channels', 'ants', 'corrprods', 'timerange', 'targets', 'target_tags', 'channel', 'scans',
             'compscans', 'inputs', 'pol', 'freqrange', 'weights', 'flags', 'reset', 'strict', 'subarray', 'spw',
@@ -563,7 +586,7 @@ def check_preselect_form(ctx, x, pre):
         try:
             open_pre(x, dict(off=0.0), pre, via)
             ok = 1
-        except (IndexError, TypeError, ValueError, AssertionError):
+        except Exception:       # any refusal will do for an invalid dictionary (the statement: not answered wrongly)
             pass
     want = int(set(pre) <= {'dumps', 'channels'} and
                all(isinstance(v, slice) and (v.step is None or (type(v.step) is int and v.step == 1)) for v in pre.values()))
@@ -583,8 +606,15 @@ def check_preselect_validation(ctx):
     rng = ctx.rng
     x = build(gen_timing(rng), 4, 4, ctx.seed)
     try:
+        rdb = write_rdb(x)
         for pre in FORMS:
             check_preselect_form(ctx, x, pre)
+            # every open path: all of them for a quarter of the forms, two random ones otherwise
+            two_known = len(pre) >= 2 and set(pre) <= {'dumps', 'channels'}
+            paths = list(ext.PATHS) if (rng.random() < 0.25 or two_known) else rng.sample(ext.PATHS, 2)
+            ext.check_paths(ctx, x, rdb, pre, paths)
+        ext.check_paths(ctx, x, rdb, None, ['direct', 'meta', 'open', 'list', 'given'])
+        ext.check_other_format(ctx)
         for _ in range(ctx.scale(40, 400)):
             pre = {}
             for k in rng.sample(KEY_POOL + ['dumps', 'channels'] * 6, rng.randint(1, 3)):
@@ -593,10 +623,104 @@ def check_preselect_validation(ctx):
                 step = rng.choice([None, None, 1, 1, 2, -1, -1, 3, 0, -2])
                 if step is not None and step < 0:
                     a, b = b - 1, (a - 1 if a > 0 else None)      # the same items, backwards
-                pre[k] = slice(a, b, step)
+                if rng.random() < 0.3:       # the same range, open-ended / from the end
+                    a, b = rng.choice([a, a - 4, None if a == 0 else a]), rng.choice([b, None if b == 4 else b, b - 4 if b is not None and b < 4 else b])
+                pre[k] = slice(a, b, step) if rng.random() < 0.9 else rng.choice([2, (0, 2), [0, 1], 'all'])
             check_preselect_form(ctx, x, pre)
+            ext.check_paths(ctx, x, rdb, pre, rng.sample(ext.PATHS, 2))
     finally:
         v4.cleanup(x)
+
+
+def gen_ops(rng, n):
+    """A history of 0..4 operations on a window of n channels: mostly valid sub-ranges, some invalid, re-channelisations."""
+    ops = []
+    for _ in range(rng.randint(0, 4)):
+        if rng.random() < 0.6:
+            if rng.random() < 0.12 or n < 1:
+                f, l = rng.choice([(-1, n), (0, n + 1), (n, n), (1, 1), (2, 1)])
+                ops.append((0, f, l))
+                break
+            f = rng.randint(0, n - 1)
+            l = rng.randint(f + 1, n)
+            ops.append((0, f, l))
+            n = l - f
+        else:
+            m = rng.choice([1, 2, 3, 4, 5, 6, 8, 9, n])
+            ops.append((1, m))
+            n = m
+    return ops
+
+
+def run_extension(ctx):
+    rng = ctx.rng
+    import time
+    t_last = [time.time()]
+
+    def lap(name):
+        now = time.time()
+        ctx.extra['seconds:' + name] = round(now - t_last[0], 1)
+        t_last[0] = now
+    from props import c06
+    import sys
+    me = sys.modules[__name__]
+    ext.check_indices(ctx)
+    # the whole open, incl. stores whose n_chans attribute is not the stored channel count
+    for _ in range(ctx.scale(110, 1100)):
+        t = gen_timing(rng)
+        T, F = rng.randint(1, 6), rng.choice([2, 3, 4, 5, 6, 8])
+        N = F if rng.random() < 0.55 else rng.choice([n for n in (2, 3, 4, 5, 6, 7, 8) if n != F])
+        k = rng.random()
+        dsl = None if k < 0.25 else gen_slice(rng, T)
+        csl = None if 0.2 <= k < 0.45 else gen_slice(rng, N)
+        via = rng.choice(['direct'] * 5 + ['meta'] * 2 + ['open'] * 2)
+        if via != 'meta' and len(range(*slice(*(csl or (None, None))).indices(F))) == 0:
+            continue            # a data set without channels in its data cannot be handled at all
+        ext.check_open(ctx, me, t, T, F, N, dsl, csl, via, cw=rng.choice([1.0, 0.5, 4.0]), centre=rng.choice(CENTRES))
+    lap('indices+open_model')
+    # vis / flags / weights on stores with lost chunks and flag streams of another length
+    for _ in range(ctx.scale(56, 600)):
+        case = ext.gen_vfw_case(rng, c06)
+        ext.check_vfw(ctx, c06, me, case, via='open' if rng.random() < 0.2 else 'direct')
+    lap('vfw')
+    # explicit timestamps
+    for _ in range(ctx.scale(60, 600)):
+        t = gen_timing(rng)
+        T = rng.randint(1, 6)
+        gaps = [0.0]
+        for _k in range(T):
+            gaps.append(gaps[-1] + rng.choice([0.5, 1.0, 2.0, 2.5, 8.0, 0.25]))
+        sl = (0, T) if rng.random() < 0.4 else gen_slice(rng, T)
+        if rng.random() < 0.35 and T >= 2:
+            # the capture straddles its fix date: dump 0 just before it, dump 1 on or after it, dump 0 not preselected
+            delta = rng.choice([0.25, 0.5, 1.0])
+            t = dict(t, cbf=t['cbf'] or 0.5)
+            t['sync'] = fix_date_of(t) - delta - t['off'] - t['first']
+            gaps = [0.0] + [max(g, delta) for g in gaps[1:]]
+            for k in range(1, len(gaps)):
+                gaps[k] = max(gaps[k], gaps[k - 1] + 0.25)
+            a = rng.randint(1, T - 1)
+            sl = (a, rng.choice([None, T, rng.randint(a + 1, T)]))
+            ctx.count('given:straddles_fix_date')
+        ext.check_given(ctx, me, t, T, gaps, sl, with_store=rng.random() < 0.4)
+    lap('given')
+    # named windows
+    for _ in range(ctx.scale(200, 2000)):
+        call = ext.gen_call(rng)
+        ext.check_spw_object(ctx, call, rng.choice(['positional', 'keyword', 'mixed']), gen_ops(rng, call['n']))
+    for n in rng.sample(range(1, 10), ctx.scale(3, 9) if ctx.tier != 'thorough' else 9):
+        ext.check_spw_laws(ctx, float(rng.choice([1284.0, 0.0, -16.0])), rng.choice([1.0, 0.5, 4.0]), n, rng.choice([1, -1]))
+    t = gen_timing(rng)
+    for sub_band, sub_product in [('l', 'c856M4k'), ('s', 'bc856M1k'), ('u', ''), ('x', 'c856M32k'), ('q', 'c856M4k')]:
+        ext.check_v4_names(ctx, me, t, sub_band, sub_product)
+    lap('windows')
+    # where the CBF dump period comes from: complete / lite / partially stripped attribute chains, mostly before a fix date
+    for drop in ext.CBF_DROPS * ctx.scale(2, 12):
+        t = gen_timing(rng)
+        if rng.random() < 0.7:
+            t['sync'] = fix_date_of(t) - rng.choice([0.25, 1.0, 3600.0, 86400.0]) - t['off'] - t['first']
+        ext.check_cbf_chain(ctx, me, t, drop)
+    lap('cbf_chain')
 
 
 # ---------------------------------------------------------------------------- driver
@@ -636,11 +760,41 @@ def run(ctx):
         a = rng.randint(0, min(T1, T2) - 1)
         check_concat(ctx, t, T1, T2, F, (c, rng.randint(c + 1, F)), (a, rng.randint(a + 1, T1 + T2)))
     check_preselect_validation(ctx)
+    run_extension(ctx)
 
 
 def replay(ctx, doc):
     case = doc['case']
-    if case.get('concat'):
+    import sys
+    me = sys.modules[__name__]
+    if case.get('open_model'):
+        ext.check_open(ctx, me, case['timing'], case['T'], case['F'], case['N'], case['dsl'], case['csl'], case['via'],
+                       cw=case['cw'], centre=case['centre'])
+    elif case.get('vfw'):
+        from props import c06
+        ext.check_vfw(ctx, c06, me, dict(case, path='v4'), via=case.get('via', 'direct'))
+    elif case.get('given'):
+        ext.check_given(ctx, me, case['timing'], case['T'], case['gaps'] + [0.0], case['sl'], case['store'])
+    elif case.get('spw_object'):
+        ext.check_spw_object(ctx, case['call'], case['style'], [tuple(o) for o in case['ops']])
+    elif case.get('spw_laws'):
+        ext.check_spw_laws(ctx, case['centre'], case['cw'], case['num_chans'], case['sideband'])
+    elif case.get('v4_names'):
+        ext.check_v4_names(ctx, me, case['timing'], case['sub_band'], case['sub_product'])
+    elif 'n' in case and 'start' in case:
+        ext.check_indices(ctx)
+    elif case.get('other_format'):
+        ext.check_other_format(ctx)
+    elif case.get('cbf_chain'):
+        ext.check_cbf_chain(ctx, me, case['timing'], None if case['drop'] is None else tuple(case['drop']))
+    elif 'paths' in case:
+        x = build(gen_timing(ctx.rng), 4, 4, ctx.seed)
+        try:
+            ext.check_paths(ctx, x, write_rdb(x), eval(case['preselect'], dict(slice=slice, array=np.array, np=np)),
+                            [case['path']] if 'path' in case else case['paths'])
+        finally:
+            v4.cleanup(x)
+    elif case.get('concat'):
         check_concat(ctx, case['timing'], case['T1'], case['T2'], case['F'], case['csl'], case['dsl'])
     elif 'dsl' in case or 'dumps' in case:
         if 'dumps' in case:       # replay files written before the slices became part of the case
